@@ -365,3 +365,99 @@ func loadOpsCoq(repo string) (string, error) {
 	fmt.Fprintf(&sb, "Definition gen_newFilter_identical_case : list string :=\n  %s.\n", coqStringList(info.IdentCase))
 	return sb.String(), nil
 }
+
+// loadGroupStateCoq (C06): what the loader keeps from one rule of a group to the next. loadRuleGroup runs loadRule on the rules in
+// order; what a rule is checked against must be computed from that rule alone. Emitted:
+//   - gen_body_loadRule: the statements of loadRule (the filterInfo of a rule is a new table, filled by newFilter on the rule's own
+//     Where expression whenever it has one, handed by value to the pattern loaders)
+//   - gen_loadRuleGroup_rules: the statements of loadRuleGroup that reach loadRule
+//   - gen_irLoader_fields: the fields of the loader (every piece of state that can survive a rule)
+//   - gen_irLoader_writes: every statement of a method of the loader (ir_loader.go, ir_utils.go) that assigns to something rooted at
+//     the receiver -- a field, an element of a field, a field of a field --, as "method: statement"
+//   - gen_filterInfo_fields, gen_filterInfo_literals: the fields of filterInfo and every composite literal of that type
+func loadGroupStateCoq(l *loadTr, files []*ast.File) (string, error) {
+	var sb strings.Builder
+	f := files[0]
+	fd := findFunc(f, "irLoader", "loadRule")
+	rg := findFunc(f, "irLoader", "loadRuleGroup")
+	if fd == nil || rg == nil {
+		return "", fmt.Errorf("loadRule / loadRuleGroup not found")
+	}
+	fmt.Fprintf(&sb, "Definition gen_body_loadRule : list string :=\n  %s.\n", coqStringList(l.bodyStrings(fd)))
+	var loop []string
+	for _, st := range rg.Body.List {
+		calls := false
+		ast.Inspect(st, func(n ast.Node) bool {
+			if call, ok := n.(*ast.CallExpr); ok && l.str(call.Fun) == "l.loadRule" {
+				calls = true
+			}
+			return true
+		})
+		if calls {
+			loop = append(loop, l.str(st))
+		}
+	}
+	fmt.Fprintf(&sb, "Definition gen_loadRuleGroup_rules : list string :=\n  %s.\n", coqStringList(loop))
+	for _, name := range []string{"irLoader", "filterInfo"} {
+		fields, err := l.structFields(f, name)
+		if err != nil {
+			return "", err
+		}
+		fmt.Fprintf(&sb, "Definition gen_%s_fields : list string :=\n  %s.\n", name, coqStringList(fields))
+	}
+	// assignments rooted at the receiver
+	var root func(e ast.Expr) string
+	root = func(e ast.Expr) string {
+		switch e := e.(type) {
+		case *ast.Ident:
+			return e.Name
+		case *ast.SelectorExpr:
+			return root(e.X)
+		case *ast.IndexExpr:
+			return root(e.X)
+		case *ast.StarExpr:
+			return root(e.X)
+		case *ast.ParenExpr:
+			return root(e.X)
+		}
+		return ""
+	}
+	var writes, lits []string
+	for _, file := range files {
+		for _, d := range file.Decls {
+			fd, ok := d.(*ast.FuncDecl)
+			if !ok || fd.Body == nil {
+				continue
+			}
+			ast.Inspect(fd.Body, func(n ast.Node) bool {
+				if cl, ok := n.(*ast.CompositeLit); ok && cl.Type != nil && l.str(cl.Type) == "filterInfo" {
+					lits = append(lits, fd.Name.Name+": "+l.str(cl))
+				}
+				return true
+			})
+			if fd.Recv == nil || len(fd.Recv.List) != 1 || len(fd.Recv.List[0].Names) != 1 || !strings.HasSuffix(l.str(fd.Recv.List[0].Type), "irLoader") {
+				continue
+			}
+			recv := fd.Recv.List[0].Names[0].Name
+			ast.Inspect(fd.Body, func(n ast.Node) bool {
+				switch st := n.(type) {
+				case *ast.AssignStmt:
+					for _, lhs := range st.Lhs {
+						if _, plain := lhs.(*ast.Ident); !plain && root(lhs) == recv {
+							writes = append(writes, fd.Name.Name+": "+l.str(st))
+							break
+						}
+					}
+				case *ast.IncDecStmt:
+					if _, plain := st.X.(*ast.Ident); !plain && root(st.X) == recv {
+						writes = append(writes, fd.Name.Name+": "+l.str(st))
+					}
+				}
+				return true
+			})
+		}
+	}
+	fmt.Fprintf(&sb, "Definition gen_irLoader_writes : list string :=\n  %s.\n", coqStringList(writes))
+	fmt.Fprintf(&sb, "Definition gen_filterInfo_literals : list string :=\n  %s.\n", coqStringList(lits))
+	return sb.String(), nil
+}
